@@ -97,18 +97,18 @@ type c16Case struct {
 func c16DrawMsg(rt *rapid.T) c16Msg {
 	m := c16Msg{}
 	m.Kind = rapid.SampledFrom([]string{"send", "send", "send", "send", "take", "take", "take", "grow", "grow", "grow", "run", "run", "nope", "addpkg", "create", "revoke", "revokeall"}).Draw(rt, "mkind")
-	m.Amt = rapid.SampledFrom([]int64{1, 100_000, 100_000, 400_000, 2_000_000}).Draw(rt, "amt")
+	m.Amt = rapid.SampledFrom([]int64{100_000, 1, 50_000, 400_000, 2_000_000}).Draw(rt, "amt")
 	m.Realm = rapid.IntRange(0, 2).Draw(rt, "realm")
 	m.N = rapid.IntRange(1, 30).Draw(rt, "n")
-	m.Tok = rapid.IntRange(0, 5).Draw(rt, "tok") == 0
+	m.Tok = rapid.IntRange(0, 6).Draw(rt, "tok") == 4
 	m.Dep = rapid.SampledFrom([]int64{0, 0, 0, 1}).Draw(rt, "dep")
 	return m
 }
 
 func c16DrawOp(rt *rapid.T, first bool, live *[][2]int) c16Op {
 	o := c16Op{}
-	kinds := []string{"create", "create", "stx", "stx", "stx", "stx", "stx", "stx", "stx", "stx", "stx", "mtx", "revoke", "revokeall"}
-	if first {
+	kinds := []string{"create", "create", "stx", "stx", "stx", "stx", "stx", "stx", "stx", "stx", "stx", "stx", "stx", "stx", "stx", "stx", "mtx", "revoke", "revokeall"}
+	if first || len(*live) == 0 {
 		kinds = []string{"create"}
 	}
 	o.Kind = rapid.SampledFrom(kinds).Draw(rt, "kind")
@@ -116,41 +116,76 @@ func c16DrawOp(rt *rapid.T, first bool, live *[][2]int) c16Op {
 	o.Master = rapid.IntRange(0, 1).Draw(rt, "master")
 	o.Sess = rapid.IntRange(0, 2).Draw(rt, "sess")
 	// aim most session traffic and revocations at sessions that were created earlier in the history
-	if o.Kind != "create" && len(*live) > 0 && rapid.IntRange(0, 9).Draw(rt, "aim") != 0 {
+	isLive := func(m, s int) int {
+		for i, p := range *live {
+			if p == [2]int{m, s} {
+				return i
+			}
+		}
+		return -1
+	}
+	if o.Kind != "create" && len(*live) > 0 && rapid.IntRange(0, 11).Draw(rt, "aim") != 6 {
 		p := rapid.SampledFrom(*live).Draw(rt, "live")
 		o.Master, o.Sess = p[0], p[1]
+	}
+	if o.Kind == "create" && isLive(o.Master, o.Sess) >= 0 && rapid.IntRange(0, 5).Draw(rt, "dup") != 3 {
+		// prefer a free slot (a duplicate create is refused)
+		for k := 0; k < 6; k++ {
+			if isLive(k/3, k%3) < 0 {
+				o.Master, o.Sess = k/3, k%3
+				break
+			}
+		}
 	}
 	o.Fee = rapid.SampledFrom([]int64{1, 1, 50_000, 200_000}).Draw(rt, "fee")
 	switch o.Kind {
 	case "create":
-		o.Limit = rapid.SampledFrom([]int64{0, 300_000, 1_000_000, 1_000_000, 5_000_000}).Draw(rt, "limit")
+		o.Limit = rapid.SampledFrom([]int64{1_000_000, 300_000, 3_000_000, 0, 10_000_000}).Draw(rt, "limit")
 		o.LimitTok = rapid.SampledFrom([]int64{0, 0, 50}).Draw(rt, "limtok")
 		o.Period = rapid.SampledFrom([]int64{0, 0, 50, 400}).Draw(rt, "period")
 		o.ExpiresIn = rapid.SampledFrom([]int64{0, 0, 0, 100, 1000, 100_000}).Draw(rt, "expires")
 		n := rapid.IntRange(1, 3).Draw(rt, "nallow")
 		for i := 0; i < n; i++ {
-			switch rapid.IntRange(0, 9).Draw(rt, "allowkind") {
-			case 0:
+			switch rapid.IntRange(0, 11).Draw(rt, "allowkind") {
+			case 7:
 				o.Allow = append(o.Allow, rapid.IntRange(c16ValidAllow, len(c16AllowPool)-1).Draw(rt, "allow"))
-			case 1, 2, 3:
+			case 0, 1, 2, 3:
 				o.Allow = append(o.Allow, 0) // "*"
 			default:
 				o.Allow = append(o.Allow, rapid.IntRange(1, c16ValidAllow-1).Draw(rt, "allow"))
 			}
 		}
-		*live = append(*live, [2]int{o.Master, o.Sess})
+		wellFormed := true
+		for _, a := range o.Allow {
+			wellFormed = wellFormed && a < c16ValidAllow
+		}
+		if wellFormed && isLive(o.Master, o.Sess) < 0 {
+			*live = append(*live, [2]int{o.Master, o.Sess})
+		}
+	case "revoke":
+		if i := isLive(o.Master, o.Sess); i >= 0 {
+			*live = append(append([][2]int{}, (*live)[:i]...), (*live)[i+1:]...)
+		}
+	case "revokeall":
+		var keep [][2]int
+		for _, p := range *live {
+			if p[0] != o.Master {
+				keep = append(keep, p)
+			}
+		}
+		*live = keep
 	case "stx", "mtx":
 		n := rapid.SampledFrom([]int{1, 1, 1, 2, 2, 3}).Draw(rt, "nmsgs")
 		for i := 0; i < n; i++ {
 			o.Msgs = append(o.Msgs, c16DrawMsg(rt))
 		}
-		o.Second = o.Kind == "stx" && rapid.IntRange(0, 5).Draw(rt, "second") == 0
+		o.Second = o.Kind == "stx" && rapid.IntRange(0, 6).Draw(rt, "second") == 4
 	}
 	return o
 }
 
 func c16Draw(rt *rapid.T) c16Case {
-	n := rapid.IntRange(8, 22).Draw(rt, "nops")
+	n := rapid.IntRange(10, 26).Draw(rt, "nops")
 	c := c16Case{}
 	var live [][2]int
 	for i := 0; i < n; i++ {
@@ -456,6 +491,9 @@ func c16Exec(ctx *vk.Ctx, c c16Case) error {
 		switch op.Kind {
 		case "create":
 			ctx.Class(fmt.Sprintf("create ok=%v", ok))
+			if !ok {
+				ctx.Class("create failed: " + c16CreateReason(r.Log))
+			}
 			if ok {
 				if sm.exists {
 					// the handler refuses duplicates; nothing in the property forbids replacing, so resync
@@ -583,6 +621,18 @@ func c16Reason(err error, log string) string {
 	return s
 }
 
+func c16CreateReason(log string) string {
+	for _, p := range []string{"already exists", "allow_paths", "allow-paths", "AllowPaths", "collides", "expired", "too many", "insufficient", "out of gas"} {
+		if strings.Contains(log, p) {
+			return p
+		}
+	}
+	if len(log) > 160 {
+		log = log[:160]
+	}
+	return log
+}
+
 func c16LedgerDiff(a, b *ec.Ledger) string {
 	addrs := map[string]bool{}
 	for x := range a.Balances {
@@ -613,7 +663,7 @@ func c16LedgerDiff(a, b *ec.Ledger) string {
 func TestC16_Sessions(t *testing.T) {
 	vk.Run(t, vk.Spec[c16Case]{
 		ID: "C16", Name: "TestC16_Sessions",
-		Rule: "rapid: histories of 8-22 ops (one tx per block, clock steps 1-2000 s) over 2 masters x 3 session keys: create (limit ugnot 0/0.3M/1M/5M and optional realm-denom limit, period 0/50/400 s, expiry never/100/1000/100000 s, 1-3 allow-path entries from a pool of 9 well-formed and 9 malformed ones), revoke, revoke-all, master-signed traffic, and session-signed txs with 1-3 messages (bank send in ugnot or a realm denom, calls with coins attached to realms aa, aab, aa/bb, calls locking storage deposits with or without a too-small limit, MsgRun scripts spending the master's coins through a banker, a call to a missing function, add_package, create/revoke/revoke-all session) with fees 1/50k/200k, sometimes as second signer next to the other master's own key. Oracle: window model fed with the measured balance decrease of the master; session must exist, be unexpired and its allow-paths (independent matcher) must cover every message; rejected txs move no coins; non-trivial = one session has >=3 accepted txs in one window with a failing one in the middle",
+		Rule: "rapid: histories of 10-26 ops (one tx per block, clock steps 1-2000 s) over 2 masters x 3 session keys: create (limit ugnot 0/0.3M/1M/3M/10M and optional realm-denom limit, period 0/50/400 s, expiry never/100/1000/100000 s, 1-3 allow-path entries from a pool of 9 well-formed and 9 malformed ones), revoke, revoke-all, master-signed traffic, and session-signed txs with 1-3 messages (bank send in ugnot or a realm denom, calls with coins attached to realms aa, aab, aa/bb, calls locking storage deposits with or without a too-small limit, MsgRun scripts spending the master's coins through a banker, a call to a missing function, add_package, create/revoke/revoke-all session) with fees 1/50k/200k, sometimes as second signer next to the other master's own key. Oracle: window model fed with the measured balance decrease of the master; session must exist, be unexpired and its allow-paths (independent matcher) must cover every message; rejected txs move no coins; non-trivial = one session has >=3 accepted txs in one window with a failing one in the middle",
 		Draw: c16Draw, Exec: c16Exec,
 	})
 }
